@@ -18,6 +18,19 @@ pub struct ServeCase {
     pub extra_polls: usize,
     /// Entity::Data type: 0 = bytes::Bytes, 1 = a non-contiguous multi-segment Buf
     pub data_kind: u8,
+    /// request version: 0 = the `http` crate's default (HTTP/1.1), 1 = HTTP/1.0, 2 = HTTP/0.9,
+    /// 3 = HTTP/2, 4 = HTTP/3
+    pub version: u8,
+}
+
+pub fn version_of(v: u8) -> http::Version {
+    match v {
+        1 => http::Version::HTTP_10,
+        2 => http::Version::HTTP_09,
+        3 => http::Version::HTTP_2,
+        4 => http::Version::HTTP_3,
+        _ => http::Version::HTTP_11,
+    }
 }
 
 impl ServeCase {
@@ -29,6 +42,7 @@ impl ServeCase {
             cap: 1 << 18,
             extra_polls: 2,
             data_kind: 0,
+            version: 0,
         }
     }
     pub fn with(mut self, name: &str, v: &[u8]) -> ServeCase {
@@ -49,6 +63,7 @@ impl ServeCase {
             "cap": self.cap,
             "extra_polls": self.extra_polls,
             "data_kind": self.data_kind,
+            "version": self.version,
         })
     }
     pub fn from_json(v: &Value) -> ServeCase {
@@ -66,6 +81,7 @@ impl ServeCase {
             cap: v["cap"].as_u64().unwrap_or(1 << 18),
             extra_polls: v["extra_polls"].as_u64().unwrap_or(2) as usize,
             data_kind: v["data_kind"].as_u64().unwrap_or(0) as u8,
+            version: v["version"].as_u64().unwrap_or(0) as u8,
         }
     }
 }
@@ -132,6 +148,7 @@ pub fn build_request(case: &ServeCase) -> Option<http::Request<()>> {
         .uri("/")
         .body(())
         .ok()?;
+    *req.version_mut() = version_of(case.version);
     for (k, v) in &case.hdrs {
         let k = HeaderName::from_bytes(k.as_bytes()).ok()?;
         let v = HeaderValue::from_bytes(v).ok()?;
